@@ -302,7 +302,9 @@ class Monitor:
                                 f"{self.name()}: unknown event {jetype}: {phase} {canon(arg)}")
                 return
             self.dead = True
-            run.expect_abort = exp_exc
+            if not run.stopping:
+                # (an error after shutdown() was called cannot replace the cancellation)
+                run.expect_abort = exp_exc
             run.fired('reach:' + {'no-duration': 'no_duration_error',
                                   'chain-limit': 'chain_limit_error',
                                   'multi-chain': 'multi_chain_error'}.get(exp_exc, exp_exc))
@@ -472,6 +474,7 @@ def build(run, plan):
 def execute(plan, trace=False):
     run = Run(plan['knobs'])
     run.stopped = False
+    run.stopping = False
     run.initialising = True
     run.driver_op = None
     run.last_driver_ns = None
@@ -542,6 +545,7 @@ def execute(plan, trace=False):
             if pending:
                 run.fired('reach:stop_with_pending_timer')
             err = None
+            run.stopping = True
             try:
                 await circuit.shutdown()
             except Exception as exc:    # pylint: disable=broad-except
